@@ -594,6 +594,9 @@ def run_case(case: dict, ctx: dict) -> dict:
             for c in contexts:
                 if c["b"] == b:
                     c["stale"] = True
+            # lists are kept by reference (they are replaced, never merged): the caller's own edit may show in a document the
+            # caller handed in earlier - that is the caller editing its document, not the merge modifying it
+            handed_in[:] = [(what, obj, unwrap(copy.deepcopy(obj))) for what, obj, _ in handed_in]
             trace.append("edit(b%d,%s,%s)" % (b, op["key"], op["via"]))
         elif kind == "create":
             want, predicts_raise = (None, False) if mdl.indeterminate else mdl.create()
